@@ -72,6 +72,7 @@ class LPSpec(object):
         sc = self.builder(rng, tier)
         sc['tier'] = tier
         if not sc['backend'].get('faults') and \
+                not sc['backend'].get('coherent_tl') and \
                 rng.random() < self.real_lane[tier]:
             sc['backend']['policy'] = 'real'
             if rng.random() < 0.5:
